@@ -150,6 +150,8 @@ Definition set_counters (p : ptask) (idle lag : nat) : ptask :=
      p_flows := p_flows p; p_sat := p_sat p; p_outs := p_outs p; p_sn := p_sn p;
      p_rel := p_rel p; p_manual := p_manual p; p_idle := idle; p_lag := lag |}.
 
+Inductive smode := SAuto | SClean | SKill | SNow | SNowNow.
+
 (* history of instances that left the pool: id, flows, final status, outputs *)
 Record hrec := { h_id : tid; h_flows : list nat; h_status : status; h_outs : list output }.
 
@@ -165,11 +167,14 @@ Record mstate := {
   done : list key;                    (* every output completed so far, by any instance (append-only) *)
   to_hold : list tid;                 (* instances to hold (pooled ones are held; future ones will be on spawn) *)
   hold_pt : option Z;                 (* workflow hold point *)
+  saved : list ptask;                 (* during a restart: what the database must give back *)
+  stop_mode : option smode;
+  stop_task : option tid;
 }.
 
 Definition init_state (c : cfg) : mstate :=
   {| pool := []; limbo := []; hist := []; subs := []; limit := None; relq := []; abs_done := [];
-     stop_point := c_fcp c; done := []; to_hold := []; hold_pt := None |}.
+     stop_point := c_fcp c; done := []; to_hold := []; hold_pt := None; saved := []; stop_mode := None; stop_task := None |}.
 
 Fixpoint find_task (l : list ptask) (t : tid) : option ptask :=
   match l with
@@ -189,31 +194,39 @@ Fixpoint update_task (l : list ptask) (p' : ptask) : list ptask :=
 
 Definition with_pool (s : mstate) (l : list ptask) : mstate :=
   {| pool := l; limbo := limbo s; hist := hist s; subs := subs s; limit := limit s; relq := relq s;
-     abs_done := abs_done s; stop_point := stop_point s; done := done s; to_hold := to_hold s; hold_pt := hold_pt s |}.
+     abs_done := abs_done s; stop_point := stop_point s; done := done s; to_hold := to_hold s; hold_pt := hold_pt s; saved := saved s; stop_mode := stop_mode s; stop_task := stop_task s |}.
 Definition with_limbo (s : mstate) (l : list ptask) : mstate :=
   {| pool := pool s; limbo := l; hist := hist s; subs := subs s; limit := limit s; relq := relq s;
-     abs_done := abs_done s; stop_point := stop_point s; done := done s; to_hold := to_hold s; hold_pt := hold_pt s |}.
+     abs_done := abs_done s; stop_point := stop_point s; done := done s; to_hold := to_hold s; hold_pt := hold_pt s; saved := saved s; stop_mode := stop_mode s; stop_task := stop_task s |}.
 Definition with_hist (s : mstate) (l : list hrec) : mstate :=
   {| pool := pool s; limbo := limbo s; hist := l; subs := subs s; limit := limit s; relq := relq s;
-     abs_done := abs_done s; stop_point := stop_point s; done := done s; to_hold := to_hold s; hold_pt := hold_pt s |}.
+     abs_done := abs_done s; stop_point := stop_point s; done := done s; to_hold := to_hold s; hold_pt := hold_pt s; saved := saved s; stop_mode := stop_mode s; stop_task := stop_task s |}.
 Definition with_subs (s : mstate) (l : list (tid * nat)) : mstate :=
   {| pool := pool s; limbo := limbo s; hist := hist s; subs := l; limit := limit s; relq := relq s;
-     abs_done := abs_done s; stop_point := stop_point s; done := done s; to_hold := to_hold s; hold_pt := hold_pt s |}.
+     abs_done := abs_done s; stop_point := stop_point s; done := done s; to_hold := to_hold s; hold_pt := hold_pt s; saved := saved s; stop_mode := stop_mode s; stop_task := stop_task s |}.
 Definition with_limit (s : mstate) (l : option Z) : mstate :=
   {| pool := pool s; limbo := limbo s; hist := hist s; subs := subs s; limit := l; relq := relq s;
-     abs_done := abs_done s; stop_point := stop_point s; done := done s; to_hold := to_hold s; hold_pt := hold_pt s |}.
+     abs_done := abs_done s; stop_point := stop_point s; done := done s; to_hold := to_hold s; hold_pt := hold_pt s; saved := saved s; stop_mode := stop_mode s; stop_task := stop_task s |}.
 Definition with_relq (s : mstate) (l : list tid) : mstate :=
   {| pool := pool s; limbo := limbo s; hist := hist s; subs := subs s; limit := limit s; relq := l;
-     abs_done := abs_done s; stop_point := stop_point s; done := done s; to_hold := to_hold s; hold_pt := hold_pt s |}.
+     abs_done := abs_done s; stop_point := stop_point s; done := done s; to_hold := to_hold s; hold_pt := hold_pt s; saved := saved s; stop_mode := stop_mode s; stop_task := stop_task s |}.
 Definition with_done (s : mstate) (l : list key) : mstate :=
   {| pool := pool s; limbo := limbo s; hist := hist s; subs := subs s; limit := limit s; relq := relq s;
-     abs_done := abs_done s; stop_point := stop_point s; done := l; to_hold := to_hold s; hold_pt := hold_pt s |}.
+     abs_done := abs_done s; stop_point := stop_point s; done := l; to_hold := to_hold s; hold_pt := hold_pt s; saved := saved s; stop_mode := stop_mode s; stop_task := stop_task s |}.
 Definition with_hold (s : mstate) (l : list tid) (hp : option Z) : mstate :=
   {| pool := pool s; limbo := limbo s; hist := hist s; subs := subs s; limit := limit s; relq := relq s;
-     abs_done := abs_done s; stop_point := stop_point s; done := done s; to_hold := l; hold_pt := hp |}.
+     abs_done := abs_done s; stop_point := stop_point s; done := done s; to_hold := l; hold_pt := hp; saved := saved s; stop_mode := stop_mode s; stop_task := stop_task s |}.
+Definition with_stop (s : mstate) (sp : Z) (m : option smode) (st : option tid) : mstate :=
+  {| pool := pool s; limbo := limbo s; hist := hist s; subs := subs s; limit := limit s; relq := relq s;
+     abs_done := abs_done s; stop_point := sp; done := done s; to_hold := to_hold s; hold_pt := hold_pt s;
+     saved := saved s; stop_mode := m; stop_task := st |}.
+Definition with_saved (s : mstate) (l : list ptask) : mstate :=
+  {| pool := pool s; limbo := limbo s; hist := hist s; subs := subs s; limit := limit s; relq := relq s;
+     abs_done := abs_done s; stop_point := stop_point s; done := done s; to_hold := to_hold s; hold_pt := hold_pt s;
+     saved := l; stop_mode := stop_mode s; stop_task := stop_task s |}.
 Definition with_abs (s : mstate) (l : list key) : mstate :=
   {| pool := pool s; limbo := limbo s; hist := hist s; subs := subs s; limit := limit s; relq := relq s;
-     abs_done := l; stop_point := stop_point s; done := done s; to_hold := to_hold s; hold_pt := hold_pt s |}.
+     abs_done := l; stop_point := stop_point s; done := done s; to_hold := to_hold s; hold_pt := hold_pt s; saved := saved s; stop_mode := stop_mode s; stop_task := stop_task s |}.
 
 (* a task is looked up in the pool first, then among the just-spawned ones *)
 Definition lookup (s : mstate) (t : tid) : option (ptask * bool) :=
@@ -241,6 +254,18 @@ Definition add_hold (s : mstate) (t : tid) : mstate :=
 Definition drop_hold (l : list tid) (t : tid) : list tid := filter (fun x => negb (tid_eqb x t)) l.
 Definition same_tids (a b : list tid) : bool :=
   forallb (fun k => mem tid_eqb k b) a && forallb (fun k => mem tid_eqb k a) b.
+
+(* what the database must give back for a pooled task after a stop + restart (C19):
+   a preparing task comes back waiting, to be prepared again under the same submit number;
+   everything loads runahead-limited (finished or manually triggered tasks are released at once) *)
+Definition restored (p : ptask) : ptask :=
+  let prep := status_eqb (p_status p) Preparing in
+  let st := if prep then Waiting else p_status p in
+  {| p_id := p_id p; p_status := st; p_held := p_held p; p_queued := false;
+     p_runahead := true;
+     p_flows := p_flows p; p_sat := p_sat p; p_outs := p_outs p;
+     p_sn := if prep then Nat.pred (p_sn p) else p_sn p;
+     p_rel := false; p_manual := p_manual p; p_idle := 0%nat; p_lag := 0%nat |}.
 
 (* ready to be queued: what queue_if_ready / is_ready_to_run require *)
 Definition ready (i : inst) (p : ptask) : bool :=
@@ -322,6 +347,15 @@ Inductive event :=
 | ECmdHoldPoint (p : Z)
 | ECmdReleaseHoldPoint
 | ERemoveBegin (t : tid)
+| ERestart
+| ERestore (v : tview)
+| ERestartDone
+| ECmdStop (m : smode)
+| ECmdStopPoint (p : Z)
+| ECmdStopTask (t : option tid)
+| EStopTaskDone
+| EShutdownReq (m : smode)
+| EParams (sp : Z) (stask : option tid)
 | ETickEnd (snap : list tview) (held : list tid) (hp : option Z)
 | EShutdownAuto.
 
@@ -415,20 +449,22 @@ Definition step (c : cfg) (s : mstate) (e : event) : res :=
       | Some (p, inp) =>
           if has_out (p_outs p) o then Err 131
           else Ok (with_done (store s (set_outs p (o :: p_outs p)) inp) ((t, o) :: done s))
-      | None => Err 130
+      | None => Ok (with_done s ((t, o) :: done s))    (* a proxy that already left the pool (late message) *)
       end
   | EState t st h q r =>
       match lookup s t, find_inst (c_insts c) t with
       | Some (p, inp), Some i =>
           if negb (status_eqb st (p_status p)) && negb (trans_ok p (p_status p) st) then Err 141   (* lifecycle (C09) *)
           else if q && negb (p_queued p) && negb (ready i (set_flags p h false r)) then Err 142  (* queued only when ready (C01 C06) *)
-          else if negb r && p_runahead p && negb (within_limit s p) && negb (p_manual p) then Err 143  (* runahead (C04) *)
+          else if negb r && p_runahead p && negb (within_limit s p) && negb (p_manual p) && negb (is_final (p_status p))
+               then Err 143  (* runahead (C04); finished tasks reloaded on restart are exempt *)
           else if status_eqb st Preparing && negb (status_eqb (p_status p) Preparing) && p_held p && negb (p_manual p)
                then Err 144                                   (* held never prepared (C06) *)
           else if h && negb (p_held p) && negb (hold_expected s t) then Err 145    (* held only on request (C06) *)
           else if negb h && p_held p && mem tid_eqb t (to_hold s) then Err 146     (* released only on request (C06) *)
           else let s1 := if h && negb (p_held p) then add_hold s t else s in
                Ok (store s1 (set_flags (set_status p st) h q r) inp)
+      | None, _ => Ok s                                   (* a proxy that already left the pool: no effect on the pool *)
       | _, _ => Err 140
       end
   | EReleaseBegin =>
@@ -449,6 +485,7 @@ Definition step (c : cfg) (s : mstate) (e : event) : res :=
           else if mem (pair_eqb tid_eqb Nat.eqb) (t, sn) (subs s) then Err 162   (* same submit number twice (C20) *)
           else if negb (Nat.ltb (count_true (fun x => tid_eqb (fst x) t) (subs s)) (i_tries i)) && negb (p_manual p)
                then Err 163                                     (* retry bound (C02) *)
+          else if Z.ltb (stop_point s) (fst t) && negb (p_manual p) then Err 164   (* beyond the stop point (C07 C43) *)
           else Ok (with_subs (with_pool s (update_task (pool s) (set_sn p sn))) ((t, sn) :: subs s))
       | _, _ => Err 160
       end
@@ -478,6 +515,44 @@ Definition step (c : cfg) (s : mstate) (e : event) : res :=
   | ECmdHoldPoint p => Ok (with_hold s (to_hold s) (Some p))
   | ECmdReleaseHoldPoint => Ok (with_hold s [] None)
   | ERemoveBegin t => Ok (with_hold s (drop_hold (to_hold s) t) (hold_pt s))
+  | ERestart =>
+      Ok (with_saved (with_limit (with_relq (with_limbo (with_pool (with_stop s (stop_point s) None (stop_task s)) []) []) []) None)
+            (map restored (pool s)))
+  | ERestore v =>
+      match find_task (saved s) (v_id v) with
+      | None => Err 221                                     (* a task the pool did not hold came back *)
+      | Some p =>
+          if negb (view_matches p v) then Err 222             (* restart restores the task exactly (C19) *)
+          else if existsb (fun q => tid_eqb (p_id q) (v_id v)) (pool s) then Err 223
+          else Ok (with_saved (with_pool s (pool s ++ [p])) (remove_task (saved s) (v_id v)))
+      end
+  | ERestartDone =>
+      match saved s with [] => Ok s | _ => Err 224 end       (* a pooled task was lost by the restart (C19) *)
+  | ECmdStop m => Ok (with_stop s (stop_point s) (Some m) (stop_task s))
+  | ECmdStopPoint p =>
+      Ok (with_limit (with_stop s p (stop_mode s) (stop_task s))
+            (match limit s with Some l => Some (Z.min l p) | None => None end))
+  | ECmdStopTask t => Ok (with_stop s (stop_point s) (stop_mode s) t)
+  | EStopTaskDone =>
+      match stop_task s with
+      | Some t => if out_done s t o_succeeded then Ok (with_stop s (stop_point s) (stop_mode s) None) else Err 231  (* C43 *)
+      | None => Err 232
+      end
+  | EShutdownReq m =>
+      if negb (option_eqb (fun a b => match a, b with
+                                      | SAuto, SAuto | SClean, SClean | SKill, SKill | SNow, SNow | SNowNow, SNowNow => true
+                                      | _, _ => false end) (stop_mode s) (Some m)) then Err 241
+      else match m with
+           | SClean | SKill =>
+               (* a clean stop waits for submitted and running jobs (C43) *)
+               if existsb (fun p => status_eqb (p_status p) Submitted || status_eqb (p_status p) Running) (pool s)
+               then Err 242 else Ok s
+           | _ => Ok s
+           end
+  | EParams sp stask =>
+      if negb (Z.eqb sp (stop_point s)) then Err 251            (* stop point survives restart unless reached (C43) *)
+      else if negb (option_eqb tid_eqb stask (stop_task s)) then Err 252
+      else Ok s
   | ETickEnd snap held hp =>
       if negb (Nat.eqb (List.length snap) (List.length (pool s))) then Err 201
       else if negb (same_tids held (to_hold s) && option_eqb Z.eqb hp (hold_pt s)) then Err 207      (* hold set / hold point (C06) *)
@@ -502,7 +577,7 @@ Definition step (c : cfg) (s : mstate) (e : event) : res :=
       else if existsb (fun p => is_final (p_status p) && Z.leb (fst (p_id p)) (stop_point s)) (pool s) then Err 213
       else if existsb (fun p => status_eqb (p_status p) Waiting && Z.leb (fst (p_id p)) (stop_point s)
                                 && negb (Nat.eqb (List.length (p_sat p)) 0)) (pool s) then Err 214
-      else Ok s
+      else Ok (with_stop s (c_fcp c) (Some SAuto) (stop_task s))   (* the early stop point is forgotten once reached (C43) *)
   end.
 
 Fixpoint run_from (c : cfg) (s : mstate) (i : nat) (tr : list event) : option (nat * nat) * mstate :=
